@@ -1,5 +1,6 @@
 import re
 
+import vlib
 from vlib import Prop
 from props.c16 import hx
 
@@ -10,6 +11,23 @@ URIS = ["https://a.b/", "https://a.b/x?q=1", "http://example.com:8080/p/a/t/h", 
         "https://www.example.com?lang=en&page=2", "https://a.b", "http://a.b:8080?x", "https://a.b?", "https://a.b/?b"]
 NAMES = ["x-a", "x-b", "accept", "content-type", "cookie", "x-long-header-name-with-many-characters", "te", "user-agent", "etag", "x-0"]
 STATUS = [200, 201, 204, 206, 301, 404, 418, 500, 599]
+# generated field names: valid tokens, lower case (RFC 9110 5.6.2 tchar without the upper-case letters)
+NAME_CHARS = "abcdefghijklmnopqrstuvwxyz0123456789!#$%&'*+-.^_`|~"
+# names a generated name must not be: `host` has a meaning of its own (D-12e); connection-specific fields and
+# content-length are not "header values" an HTTP/3 message may carry freely (RFC 9114 4.2)
+NOT_NAMES = {"host", "connection", "keep-alive", "proxy-connection", "transfer-encoding", "upgrade", "content-length"}
+# long values: the Lean driver's cost is quadratic in the length of a value (the model's Huffman / string path over
+# `List Nat`: 1 000 bytes 0.1-0.6 s, 4 096 bytes 0.5-9 s, 16 384 printable bytes 6.5 s, 16 384 high bytes > 60 s), so
+# the quick tier stops at 4 096 bytes (printable from 2 048 on) and the thorough tier at 8 192 printable bytes;
+# 16 384 / 65 535 / 65 536 / 70 000 bytes go through the real code alone, checked in Python (`extra`, impl-only probes)
+LONG_VALUES = {"quick": [1000, 1000, 1500, 2048, 4096], "thorough": [1000, 1500, 2048, 4096, 8192]}
+VALUE_BYTES = [0x09] + list(range(0x20, 0x7f)) + list(range(0x80, 0x100))
+PRINTABLE = list(range(0x20, 0x7f))
+# interim responses (RFC 9110 15.2; 101 is not used in HTTP/3)
+INTERIM = [100, 102, 103, 199]
+# origin-form targets (no scheme, no authority): the authority travels in `Host`
+ORIGIN_TARGETS = ["/x?y=1", "/", "/a/b/c", "/?q", "/%7Euser/index.html?a=b&c=d", "/" + "seg/" * 20]
+HOSTS = ["a.b", "example.com:8080", "[::1]:4433", "xn--nxasmq6b.example"]
 # authority-form targets (plain CONNECT, RFC 9114 4.4: neither :scheme nor :path)
 AUTHORITIES = ["a.b:443", "example.com:80", "[::1]:4433", "proxy.example:8080", "xn--nxasmq6b.example:1"]
 # extended CONNECT (RFC 8441 / RFC 9220): the :protocol values h3 knows; only with ec=1 on both endpoints
@@ -62,9 +80,15 @@ class C01(Prop):
                   "or one transport event")
     rule = ("two real endpoints (client, server) over SimQuic joined by a relay that moves bytes only when the script says "
             "so; messages from alphabets of methods incl. CONNECT (authority-form target) and extended CONNECT (:protocol, "
-            "ec=1 on both endpoints), absolute-form targets, duplicate header names, high-byte values, bodies 0..64 KiB in "
-            "arbitrary send pieces incl. empty ones (64 KiB in 8..60 pieces in the thorough tier), trailers or not; grease "
-            "on/off per endpoint; a PRODUCT of: sender back-pressure via write credit on the client and/or the server (heads, "
+            "ec=1 on both endpoints), absolute-form targets, origin-form targets whose authority is in Host, field "
+            "sections of 0..4 fields and (8 % of the sections) 5..40 fields, names from ten fixed ones or generated tokens "
+            "(lower-case letters, digits, !#$%&'*+-.^_`|~), duplicate names, values of any legal bytes with leading / "
+            "trailing SP and HTAB and inner HTAB, now and then a value of 1 000..4 096 bytes (8 192 in the thorough tier; "
+            "the Lean driver's cost is quadratic in the value length), bodies 0..64 KiB in arbitrary send pieces incl. "
+            "empty ones (64 KiB whole or in 8..60 pieces: 4 % of the messages in the thorough tier, of one case in eight "
+            "in the quick tier), trailers or not; interim responses (1xx, one send_response / recv_response per head) "
+            "before the final one; SETTINGS relayed only after the first request was sent / met / read; a further "
+            "request sent after a response; grease on/off per endpoint; a PRODUCT of: sender back-pressure via write credit on the client and/or the server (heads, "
             "DATA and trailers partially written) x readers posted before / while / after the data arrives x relay whole / in "
             "random 1..7-byte pieces / partial per stream x reader shapes (one loop; recv_data, split mid-body, loop on the "
             "receive half; body to its end, split with the trailers remembered, recv_trailers on the receive half; split "
@@ -100,6 +124,8 @@ class C01(Prop):
         of the accept loop or of `wait_idle`, `no-task`, `bad-cmd`."""
         if " | " not in impl:
             return impl
+        # a `*` of a field name is printed `\\x2a` on both sides (in a specification token `*` is a wildcard)
+        impl = impl.replace("*", "\\x2a")
         tr, summ = impl.split(" | ", 1)
         trace = tr.split()
         reqs, resps = {}, {}
@@ -184,7 +210,7 @@ class C01(Prop):
         feats.append("split" if ".sp" in line else "whole")
         feats.append("bp" if "wc=" in w[1] or "wc=" in w[2] else "free")
         feats.append("grease" if "g1" in w[1].split(",") or "g1" in w[2].split(",") else "plain")
-        feats.append("pieces" if "~" in line else "wholechunks")
+        feats.append("pieces" if re.search(r" [<>]~\d+", line) else "wholechunks")
         feats.append("tr" if ".st:" in line else "notr")
         if "R:CONNECT" in line:
             feats.append("connect")
@@ -235,16 +261,82 @@ class C01(Prop):
                 f.add("duplex")
         n = len(re.findall(r"c\.snd\.R:", line))
         f.add("reqs=%d" % n)
+        # second audit (bC05): the generator gaps
+        sections = re.findall(r"\.(?:R:[^:]+:[0-9a-f]+|sr:\d+|st):(\S+)", line)
+        vals = [kv.split("=", 1) for sec in sections if sec != "-" for kv in sec.split(";")]
+        if any(v[:2] in ("20", "09") or v[-2:] in ("20", "09") for _, v in vals):
+            f.add("ows-edge")
+        if any("09" in [v[i:i + 2] for i in range(2, len(v) - 2, 2)] for _, v in vals):
+            f.add("htab-inner")
+        if any(sec != "-" and sec.count(";") + 1 > 4 for sec in sections):
+            f.add("fields>4")
+        if any(sec != "-" and sec.count(";") + 1 >= 20 for sec in sections):
+            f.add("fields>=20")
+        if any(k not in NAMES and k != "host" for k, _ in vals):
+            f.add("gen-name")
+        if any(re.search(r"[^a-z0-9-]", k) for k, _ in vals):
+            f.add("gen-name-special")
+        if any(len(v) >= 2000 for _, v in vals):
+            f.add("value>=1000")
+        if any(len(v) >= 2 * 65536 for _, v in vals):
+            f.add("value>=65536")
+        body = {}
+        for m in re.finditer(r"([cs])\.q(\d+)s?\.sd:([0-9a-f]+|-)", line):
+            b = body.setdefault((m.group(1), m.group(2)), [0, 0])
+            b[0] += len(m.group(3)) // 2
+            b[1] += 1
+        if any(b[0] == 65536 for b in body.values()):
+            f.add("body=64KiB")
+        if any(b[0] == 65536 and b[1] >= 8 for b in body.values()):
+            f.add("body=64KiB,pieces>=8")
+        first_req = ops.index(next(op for op in ops if op.startswith("c.snd.R:")))
+        if not any(op in (">>", "<<") or re.match(r"^[<>]~", op) for op in ops[:first_req]):
+            f.add("settings-after-request")
+        srs = [k for k, op in enumerate(ops) if re.match(r"^s\.q\d+s?\.sr:", op)]
+        if srs and any(op.startswith("c.snd.R:") for op in ops[srs[0]:]):
+            f.add("request-after-sr")
+        if re.search(r"s\.q\d+s?\.sr:1\d\d[: ]", line + " "):
+            f.add("interim")
+        if re.search(r"c\.snd\.R:[A-Z]+:2f", line):
+            f.add("origin-form+host")
         return f
 
-    def headers(self, rng, maxn=5):
-        hs = []
-        for _ in range(rng.randrange(0, maxn)):
-            n = rng.choice(NAMES)
+    def name(self, rng):
+        """a field name: one of the fixed ones, or a generated token (lower-case letters, digits and the other
+        token characters, 1..24 characters)"""
+        if rng.random() < 0.5:
+            return rng.choice(NAMES)
+        while True:
+            n = "".join(rng.choice(NAME_CHARS) for _ in range(rng.choice([1, 1, 2, 3, 5, 8, 13, 24])))
+            if n not in NOT_NAMES:
+                return n
+
+    def value(self, rng, ln=None):
+        """a field value: any bytes http::HeaderValue takes (HTAB, 0x20..0x7e, 0x80..0xff) — leading and
+        trailing SP / HTAB included (the model admits them, Model/Headers.lean `validValue`; the http crate
+        keeps them and QPACK carries them: the receiver must be handed the same bytes)"""
+        if ln is None:
             ln = rng.choice([0, 1, 2, 5, 20, 100])
-            v = bytes(rng.choice([0x09] + list(range(0x20, 0x7f)) + list(range(0x80, 0x100))) for _ in range(ln))
-            v = v.strip(b" \t")  # the http crate keeps them, but be conservative about OWS
-            hs.append("%s=%s" % (n, v.hex() if v else "-"))
+        v = bytes(rng.choices(PRINTABLE if ln >= 2048 else VALUE_BYTES, k=ln))
+        k = rng.random()
+        if k < 0.3:
+            ows = [b" ", b"\t", b" \t", b"\t ", b"  ", b""]
+            v = rng.choice(ows) + v[:len(v) // 2] + rng.choice([b"\t", b" \t ", b""]) + v[len(v) // 2:] + rng.choice(ows)
+        return v
+
+    def headers(self, rng, maxn=5, long_ok=True):
+        """0..4 fields mostly; in one section of five 5..40 fields; now and then one value of 1 000..70 000 bytes
+        (the receivers' max_field_section_size is h3's default, 2^62 - 1 = unlimited, and so is the limit the
+        peer advertises: the section is within both, C10)"""
+        many = rng.random() < 0.08
+        n = rng.randrange(5, 41) if many else rng.randrange(0, maxn)
+        hs = []
+        for _ in range(n):
+            v = self.value(rng, rng.choice([0, 1, 2, 5, 20]) if many else None)
+            hs.append("%s=%s" % (self.name(rng), v.hex() if v else "-"))
+        if long_ok and rng.random() < 0.003:
+            v = self.value(rng, rng.choice(LONG_VALUES[self.tier]))
+            hs.insert(rng.randrange(0, len(hs) + 1), "%s=%s" % (self.name(rng), v.hex()))
         return ";".join(hs) if hs else "-"
 
     def body_pieces(self, rng, big):
@@ -267,11 +359,24 @@ class C01(Prop):
         return {"hdrs": self.headers(rng), "pieces": self.body_pieces(rng, big),
                 "trailers": self.headers(rng, 3) if rng.random() < 0.4 else None}
 
+    def interims(self, rng):
+        """interim responses sent before the final one: h3's server API has no call of its own for them —
+        `send_response` writes one HEADERS frame per call and keeps no state (h3/src/server/stream.rs:141-179), so
+        the application calls it once per interim response and once for the final one; on the client every
+        `recv_response` call answers the next HEADERS frame as a `Response` (h3/src/client/stream.rs:99 ff.), so
+        the application calls it again while the status is 1xx.  NOTE: the loop over 1xx is left to the
+        application; a client that goes on to `recv_data` after an interim head (`… sr:103 sr:200 sd fi << c.q0.rr
+        c.q0.rm`) is answered `err:conn:local:H3_FRAME_UNEXPECTED` and the connection is closed — such lines are
+        not generated (the receiving application follows the documented pattern)."""
+        if rng.random() >= 0.1:
+            return []
+        return [(rng.choice(INTERIM), self.headers(rng, 3, False)) for _ in range(rng.choice([1, 1, 2]))]
+
     @staticmethod
     def nonempty(msg):
         return any(p != "-" for p in msg["pieces"])
 
-    def reader(self, rng, task, head, msg, may_split):
+    def reader(self, rng, task, head, msg, may_split, heads=1):
         """the receiving application's calls on one stream: the head call, then the documented loop — as one
         reader loop (`rm`), or taken apart around a `split()`: a first `recv_data`, split in the middle of the
         body, the loop on the receive half (`rd sp rm`); the body to its end, split with the trailers already
@@ -282,13 +387,20 @@ class C01(Prop):
             modes += ["sp-first", "end-split"] + (["mid", "mid"] if self.nonempty(msg) else [])
         mode = rng.choice(modes)
         cmds = {"rm": ["rm"], "sp-first": ["sp", "rm"], "mid": ["rd", "sp", "rm"], "end-split": ["rda", "sp", "rt"]}[mode]
-        return ["%s.%s" % (task, c) for c in [head] + cmds], mode != "rm"
+        return ["%s.%s" % (task, c) for c in [head] * heads + cmds], mode != "rm"
 
     def one_case(self, rng, big):
         seed = rng.randrange(0, 1000)
+        # quick tier: one case in three may draw the 64 KiB bodies (4 % of its messages do)
+        big = big or rng.random() < 0.12
+        # SETTINGS late: the control streams are relayed only after the first request went out (`first`), after the
+        # server has met the request streams (`met`), or after the requests have been sent and read (`read`)
+        late = rng.choice(["first", "met", "read"]) if rng.random() < 0.1 else None
+        # a further exchange whose `send_request` comes after a `send_response`
+        after_sr = rng.random() < 0.12
         cg, sg = rng.random() < 0.4, rng.random() < 0.4
         cbp, sbp = rng.random() < 0.35, rng.random() < 0.35
-        ec = rng.random() < 0.15
+        ec = rng.random() < 0.15 and not late   # RFC 8441: extended CONNECT only once the peer's SETTINGS are known
         ccfg = ",".join(["g1" if cg else "g0", "seed=%d" % seed] + (["wc=0"] if cbp else []) + (["ec=1"] if ec else []))
         scfg = ",".join(["g1" if sg else "g0"] + (["wc=0"] if sbp else []) + (["ec=1"] if ec else []))
         ops = []
@@ -296,10 +408,14 @@ class C01(Prop):
             ops += ["c:gw2:100", "c:gw6:9", "c:gw10:9"]
         if sbp:
             ops += ["s:gw3:100", "s:gw7:9", "s:gw11:9"]
-        ops += [">>", "<<", "s.conn.AL", "c.drv.W"]
+        settings = [">>", "<<"]
         if (cg or sg) and rng.random() < 0.7:
             # the grease streams (opened once the peer's SETTINGS have been read) get credit and are relayed
-            ops += ["c:gw14:1000", "s:gw15:1000", ">>", "<<"]
+            settings += ["c:gw14:1000", "s:gw15:1000", ">>", "<<"]
+        if late:
+            ops += ["s.conn.AL", "c.drv.W"]
+        else:
+            ops += settings[:2] + ["s.conn.AL", "c.drv.W"] + settings[2:]
         relay = lambda d: rng.choice(["%s%s" % (d, d), "%s~%d" % (d, rng.randrange(1, 99999))])
         small = lambda: rng.choice([1, 2, 3, 5, 7, 9, 17, 40, 100, 200])
         nreq = rng.choice([1, 1, 1, 2, 2, 3, 4])
@@ -316,6 +432,10 @@ class C01(Prop):
                 method, uri = rng.choice(METHODS), rng.choice(URIS)
             st = {"sid": sid, "req": self.message(rng, big), "resp": self.message(rng, big), "status": rng.choice(STATUS),
                   "csender": "c.q%d" % sid, "ssender": "s.q%d" % sid, "csplit": False, "ssplit": False, "sr_sent": False}
+            st["interims"] = self.interims(rng)
+            if not method.startswith("CONNECT") and rng.random() < 0.08:
+                uri = rng.choice(ORIGIN_TARGETS)
+                st["req"]["hdrs"] = self.with_host(rng, st["req"]["hdrs"])
             ops.append("c.snd.R:%s:%s:%s" % (method, hexs(uri), st["req"]["hdrs"]))
             if cbp:
                 # let the request head through (in a few partial writes), then throttle the body
@@ -327,10 +447,14 @@ class C01(Prop):
                 ops.append("c.q%d.sp" % sid)
                 st["csender"], st["csplit"] = "c.q%ds" % sid, True
             streams.append(st)
+            if late == "first" and i == 0:
+                ops += settings
         # the server meets the streams: whole heads, or (not for `duplex`) a single byte first
         for st in streams:
             st["accept1"] = st["cmode"] != "duplex" and rng.random() < 0.3
             ops.append(">%d:%s" % (st["sid"], "1" if st["accept1"] else "*"))
+        if late == "met":
+            ops += settings
         # ---- phase 2: the request bodies are sent while (some of) the server's readers already run
         lists = []
         late_readers = []
@@ -340,11 +464,12 @@ class C01(Prop):
                 # the server splits at once and answers from its send half while its receive half reads the request;
                 # the client is given the response head, splits, and goes on sending from its send half while its
                 # receive half reads the response: four tasks on one stream
-                L += ["s.q%d.res" % sid, "s.q%d.sp" % sid, "s.q%ds.sr:%d:%s" % (sid, st["status"], st["resp"]["hdrs"])]
+                L += ["s.q%d.res" % sid, "s.q%d.sp" % sid]
+                L += ["s.q%ds.sr:%d:%s" % (sid, c, h) for c, h in st["interims"] + [(st["status"], st["resp"]["hdrs"])]]
                 st["ssender"], st["ssplit"], st["sr_sent"] = "s.q%ds" % sid, True, True
                 if sbp:
                     L += ["s:gw%d:%d" % (sid, rng.choice([1, 3])), "s:gw%d:100000" % sid, "s:cw%d:0" % sid]
-                L += ["<%d:*" % sid, "c.q%d.rr" % sid, "c.q%d.sp" % sid]
+                L += ["<%d:*" % sid] + ["c.q%d.rr" % sid] * (len(st["interims"]) + 1) + ["c.q%d.sp" % sid]
                 st["csender"], st["csplit"] = "c.q%ds" % sid, True
                 st["creader_posted"] = True
                 L.append("c.q%d.rm" % sid)
@@ -375,12 +500,15 @@ class C01(Prop):
                 ops.append("c:gw%d:10000000" % sid)
         ops.append(relay(">"))
         ops += late_readers
+        if late == "read":
+            ops += settings
         # ---- phase 3: the responses
         lists = []
         late_readers = []
         for st in streams:
             sid, M = st["sid"], []
             if not st["sr_sent"]:
+                M += ["%s.sr:%d:%s" % (st["ssender"], c, h) for c, h in st["interims"]]
                 M.append("%s.sr:%d:%s" % (st["ssender"], st["status"], st["resp"]["hdrs"]))
                 if sbp:
                     M += ["s:gw%d:%d" % (sid, rng.choice([1, 3])), "s:gw%d:100000" % sid, "s:cw%d:0" % sid]
@@ -393,7 +521,7 @@ class C01(Prop):
                 M.append("%s.st:%s" % (st["ssender"], st["resp"]["trailers"]))
             M.append("%s.fi" % st["ssender"])
             if not st.get("creader_posted"):
-                r, _ = self.reader(rng, "c.q%d" % sid, "rr", st["resp"], not st["csplit"])
+                r, _ = self.reader(rng, "c.q%d" % sid, "rr", st["resp"], not st["csplit"], len(st["interims"]) + 1)
                 if rng.random() < 0.5:
                     M = self.merge(rng, [M, r])
                 else:
@@ -410,7 +538,42 @@ class C01(Prop):
                 ops.append("s:gw%d:10000000" % sid)
         ops.append(relay("<"))
         ops += late_readers
+        if after_sr:
+            ops = self.add_late_exchange(rng, ops, 4 * nreq, cbp, sbp, big)
         return "e2e %s %s %s" % (ccfg, scfg, " ".join(ops))
+
+    def with_host(self, rng, hdrs):
+        """the `Host` field (once, or twice with the same value) somewhere among the fields"""
+        hs = [] if hdrs == "-" else hdrs.split(";")
+        h = "host=" + hexs(rng.choice(HOSTS))
+        for _ in range(rng.choice([1, 1, 1, 2])):
+            hs.insert(rng.randrange(0, len(hs) + 1), h)
+        return ";".join(hs)
+
+    def add_late_exchange(self, rng, ops, sid, cbp, sbp, big):
+        """one more exchange on the next request stream: its `send_request` (and the relay of its head) comes
+        right after a `send_response` of an earlier exchange, the rest after everything else"""
+        req, resp = self.message(rng, big), self.message(rng, big)
+        srs = [k for k, op in enumerate(ops) if re.match(r"^s\.q\d+s?\.sr:", op)]
+        at = rng.choice(srs) + 1
+        head = ["c.snd.R:%s:%s:%s" % (rng.choice(METHODS), hexs(rng.choice(URIS)), req["hdrs"])]
+        if cbp:
+            head.append("c:gw%d:10000000" % sid)
+        head.append(">%d:*" % sid)
+        rest = ["c.q%d.sd:%s" % (sid, p) for p in req["pieces"]]
+        if req["trailers"] is not None:
+            rest.append("c.q%d.st:%s" % (sid, req["trailers"]))
+        rest += ["c.q%d.fi" % sid, rng.choice([">>", ">%d:*" % sid])]
+        rest += self.reader(rng, "s.q%d" % sid, "res", req, False)[0]
+        rest.append("s.q%d.sr:%d:%s" % (sid, rng.choice(STATUS), resp["hdrs"]))
+        if sbp:
+            rest.append("s:gw%d:10000000" % sid)
+        rest += ["s.q%d.sd:%s" % (sid, p) for p in resp["pieces"]]
+        if resp["trailers"] is not None:
+            rest.append("s.q%d.st:%s" % (sid, resp["trailers"]))
+        rest += ["s.q%d.fi" % sid, rng.choice(["<<", "<%d:*" % sid])]
+        rest += self.reader(rng, "c.q%d" % sid, "rr", resp, False)[0]
+        return ops[:at] + head + ops[at:] + rest
 
     @staticmethod
     def merge(rng, lists):
@@ -432,9 +595,78 @@ class C01(Prop):
         return ("e2e g0,seed=1 g0 >> << s.conn.AL c.drv.W c.snd.R:GET:%s:%s c.q0.sd:0102 c.q0.fi >> s.q0.res s.q0.rm "
                 "s.q0.sr:200:%s s.q0.sd:03 s.q0.fi << c.q0.rr c.q0.rm" % (hexs("https://a.b/"), req, resp))
 
+    tier = "quick"
+
     def cases(self, tier, rng):
         big = tier == "thorough"
+        self.tier = tier
         return [self.one_case(rng, big) for _ in range(12000 if big else 2500)] + [self.many_fields_case()]
+
+    LONG_PROBES = [16384, 65535, 65536, 70000]
+
+    def long_value_probes(self, rng):
+        """[(case line, expected projection)]: one exchange per length n whose request head, request trailers,
+        response head and response trailers each carry a value of n bytes (any legal bytes, high bytes included,
+        SP / HTAB at both ends) among small fields; the 65 536 line also sends a 64 KiB request body in 20 pieces.
+        The expectation is the property's demand written out for these lines: the same values byte for byte in the
+        per-name order, body = concatenation, trailers, one clean end and nothing else."""
+        def val(n):
+            mid = bytes(rng.choices(VALUE_BYTES, k=n - 4))
+            return (rng.choice([b" \t", b"\t ", b"  ", b"\t\t"]) + mid + rng.choice([b" \t", b"\t ", b"  ", b"\t\t"])).hex()
+
+        def render(fields):
+            return ";".join("%s=%s" % kv for kv in sorted(fields, key=lambda kv: kv[0]))   # stable: per-name order kept
+
+        out = []
+        for n in self.LONG_PROBES:
+            rh = [("x-a", "61"), ("x.long", val(n)), ("accept", "2a2f2a"), ("x-a", "2062")]
+            rt = [("t~1", val(n)), ("x-0", "09")]
+            sh = [("etag", "2261"), ("big|value", val(n))]
+            stl = [("x-b", val(n))]
+            if n == 65536:
+                cuts = sorted(rng.randrange(0, 65537) for _ in range(19))
+                pieces = [rng.randbytes(b - a).hex() or "-" for a, b in zip([0] + cuts, cuts + [65536])]
+            else:
+                pieces = ["0102", "-", "03"]
+            body = "".join(x for x in pieces if x != "-")
+            raw = lambda fs: ";".join("%s=%s" % kv for kv in fs)
+            ops = [">>", "<<", "s.conn.AL", "c.drv.W", "c.snd.R:POST:%s:%s" % (hexs("https://a.b/up"), raw(rh))]
+            ops += ["c.q0.sd:%s" % x for x in pieces] + ["c.q0.st:%s" % raw(rt), "c.q0.fi"]
+            # relayed in 1..7-byte pieces on the shortest line only (time), whole on the others
+            ops += [">~%d" % rng.randrange(1, 99999) if n == 16384 else ">>", "s.q0.res", "s.q0.rm"]
+            ops += ["s.q0.sr:200:%s" % raw(sh), "s.q0.sd:0405", "s.q0.st:%s" % raw(stl), "s.q0.fi"]
+            ops += ["<~%d" % rng.randrange(1, 99999) if n == 16384 else "<<", "c.q0.rr", "c.q0.rm"]
+            line = "e2e g%d,seed=%d g%d %s" % (rng.randrange(2), rng.randrange(1000), rng.randrange(2), " ".join(ops))
+            want = ("s.q0.res=ok:POST:%s:-:%s s.q0.rm=body:%s:trailers:%s c.q0.rr=ok:200:%s c.q0.rm=body:0405:trailers:%s "
+                    "c.pending=- c.closed=- c.rst=- c.stop=- s.pending=- s.closed=- s.rst=- s.stop=- extra=-"
+                    % (hexs("https://a.b/up"), render(rh), body, render(rt), render(sh), render(stl)))
+            out.append((line, want))
+        return out
+
+    def extra(self, tier, rng, ctx):
+        """IMPL-ONLY probes: header values of 16 384 / 65 535 / 65 536 / 70 000 bytes.  The Lean driver's cost is
+        quadratic in the length of a value (16 384 high bytes: more than a minute), so these lines do not go through
+        `h3drv`; the real endpoints run them and the projection of what happened is compared with the property's
+        demand computed here (`long_value_probes`)."""
+        probes = self.long_value_probes(rng)
+        rc, outs, err = vlib.run_lines(vlib.RUN, [l for l, _ in probes], timeout=120)
+        if rc != 0 or len(outs) != len(probes):
+            return [("broken", "long values: the harness answered %d of %d probe lines (rc=%s %s)"
+                     % (len(outs), len(probes), rc, err[-200:]), {})]
+        res = []
+        for n, (line, want), raw in zip(self.LONG_PROBES, probes, outs):
+            got = self.project(line, raw)
+            if got != want:
+                k = next((i for i, (a, b) in enumerate(zip(got, want)) if a != b), min(len(got), len(want)))
+                res.append(("broken", "long values: a %d-byte value is not delivered identically / something else happened: "
+                            "projection differs from the demand at character %d: got `…%s…` want `…%s…` (line: %s…)"
+                            % (n, k, got[max(0, k - 60):k + 60], want[max(0, k - 60):k + 60], line[:200]), {}))
+        if not res:
+            res.append(("note", "long values: field values of %s bytes (any legal bytes, SP / HTAB at both ends) in request "
+                        "head, request trailers, response head and response trailers, one line with a 64 KiB body in 20 "
+                        "pieces: delivered identically, clean end, nothing else (impl-only: the Lean driver is quadratic in "
+                        "the value length)" % " / ".join(str(n) for n in self.LONG_PROBES), {}))
+        return res
 
     def shrink_candidates(self, line):
         """Smaller lines that are still complete scenarios (a line that merely leaves something pending — a
